@@ -660,6 +660,10 @@ def c13(tier, rng, fam='C13'):
                 if how == 'cancel':
                     b.step('cancel', c=2)
                     b.q()
+                    # what the caller does next on that stream fails - it does not report success without data
+                    b.step('recv', c=2, n=2)
+                    b.step('send', c=2, pay='after')
+                    b.q()
                 b.step('ucall', c=3, pay='probe', to=1000)
                 b.step('inj', dir='s2c', env=env(2, m=METH['unary'], b='pong', t=[]))
                 b.step('dlv', dir='s2c', n=-1)
